@@ -1,18 +1,21 @@
 #!/bin/bash
 # tools/confirm_mutant.sh <PROP> <mk> [demo_dest_dir=core/tests]
+# env: SRCROOT (default /tmp/mut: where the sub-agent wrote <PROP>-out/<mk>/), BASE (commit to confirm against; default the
+#      pinned commit db9fd12; round 2 uses the repaired main), OUTK (name under /verif/seeded, default <mk>)
 # Confirms a seeded change in a scratch worktree (outside /repo and /verif) at the PINNED commit:
 #  1. unchanged tree: demo passes;  2. with the change: workspace builds, the existing suite passes, demo fails.
 # On success copies patch + demo + meta.json to /verif/seeded/<PROP>-<mk>/ .
 set -u
 P=$1; K=$2; DEST=${3:-core/tests}
-SRC=/tmp/mut/$P-out/$K
+SRCROOT=${SRCROOT:-/tmp/mut}; BASE=${BASE:-db9fd12}; OUTK=${OUTK:-$K}
+SRC=$SRCROOT/$P-out/$K
 WT=/tmp/confirm-wt
 PIN=$(cat /root/.vp/repo_root_sha 2>/dev/null || echo db9fd12)
-LOG=/tmp/mut/$P-out/$K/confirm.log
+LOG=$SRC/confirm.log
 export CARGO_NET_OFFLINE=true RUST_BACKTRACE=0 CARGO_TARGET_DIR=/tmp/confirm-target
 exec 9>/tmp/confirm.lock; flock 9
-if [ ! -d $WT ]; then git -C /repo worktree add -q --detach $WT db9fd12 || exit 2; fi
-cd $WT && git checkout -q --detach db9fd12 && git checkout -q -- . && git clean -fdq
+if [ ! -d $WT ]; then git -C /repo worktree add -q --detach $WT $BASE || exit 2; fi
+cd $WT && git checkout -q --detach $BASE && git checkout -q -- . && git clean -fdq
 DEMOS=$(ls $SRC | grep -E '^demo.*\.rs$')
 [ -z "$DEMOS" ] && { echo "no demo .rs in $SRC"; exit 2; }
 mkdir -p $WT/$DEST
@@ -35,17 +38,17 @@ if grep -q "FAILED\|^error" $LOG.suite || [ "$PASSED" != "152" ]; then echo "$P 
 mkdir -p $WT/$DEST; for d in $DEMOS; do cp $SRC/$d $WT/$DEST/; done
 { echo "== 3. with change, demo"; if [ "${MODE:-test}" = example ]; then $RUNNER $PKG $NAMES > $LOG.ex 2>&1; rc=$?; tail -3 $LOG.ex; [ $rc -ne 0 ] && echo "FAILED exit=$rc"; else cargo test --offline $PKG $NAMES 2>&1 | grep -E "^test result|FAILED|panicked" | head -20; fi; } > $LOG.demo
 grep -q "FAILED" $LOG.demo || { echo "$P $K: demo does not fail with the change"; cat $LOG.demo; exit 1; }
-OUT=/verif/seeded/$P-$K; mkdir -p $OUT
+OUT=/verif/seeded/$P-$OUTK; mkdir -p $OUT
 cp $SRC/patch.diff $OUT/; for d in $DEMOS; do cp $SRC/$d $OUT/; done; cp $SRC/notes.md $OUT/notes.md 2>/dev/null
 cat $LOG $LOG.suite $LOG.demo > $OUT/confirm.log
-python3 - "$P" "$K" "$DEST" "$DEMOS" <<'PY'
+python3 - "$P" "$OUTK" "$DEST" "$DEMOS" "$BASE" <<'PY'
 import json,sys,os
-P,K,DEST,DEMOS=sys.argv[1:5]
+P,K,DEST,DEMOS,BASE=sys.argv[1:6]
 out='/verif/seeded/%s-%s'%(P,K)
 notes=open(out+'/notes.md').read() if os.path.exists(out+'/notes.md') else ''
 meta={"property":P,"id":"%s-%s"%(P,K),"patch":"patch.diff","demo":DEMOS.split(),"demo_dest":DEST,
  "needs_to_manifest":"see notes.md (written by the independent sub-agent that produced the change)",
- "confirmed":{"pinned_commit":"db9fd12","unchanged_tree_demo":"pass","with_change_build":"ok","with_change_suite":"152 passed","with_change_demo":"FAILED",
+ "confirmed":{"base_commit":BASE,"unchanged_tree_demo":"pass","with_change_build":"ok","with_change_suite":"152 passed","with_change_demo":"FAILED",
    "commands":["cargo test --offline <pkg> --test <demo> (unchanged tree)","git apply patch.diff","cargo test --workspace --no-fail-fast --offline","cargo test --offline <pkg> --test <demo>"]},
  "detected_by":None}
 json.dump(meta,open(out+'/meta.json','w'),indent=1)
